@@ -251,6 +251,9 @@ func genClass(r *rng) *gType {
 					f := newF()
 					f.group = true
 					f.param = freshParam()
+					if (f.typ == tString || f.typ == tBytes) && f.enc == "" && r.intn(2) == 0 {
+						f.enc = "none" // group members that may hold any byte ('=' and ',' aside, see presentable)
+					}
 					if k >= 2 && r.intn(2) == 0 {
 						f.omit = true
 					}
@@ -467,7 +470,7 @@ func fillScalar(r *rng, f *gField, v reflect.Value, wild bool) {
 	if wild && r.intn(6) == 0 {
 		alpha = "ab$,=_@\n"
 	}
-	if f.enc == "none" && r.intn(3) == 0 {
+	if f.enc == "none" && r.intn(2) == 0 {
 		// no alphabet applies: any byte may be stored, including 8-bit ones and UTF-8 sequences
 		alpha = "a0=\x80\xff\xc3\xa9\xe9\x00\x7f"
 	}
